@@ -876,6 +876,9 @@ class RunLengthRaggedArray(RunLength2dArray, IndexableMixin):
     def mean(self, axis=-1, **kwargs):
         if axis in (0, -2):
             return self.sum(axis=0)/self.col_counts()
+        if np.issubdtype(self._values.dtype, np.integer):
+            # like numpy (and RunLengthArray.mean): integers are averaged in float64, an integer row sum can overflow
+            return self.__class__(self._indices, self._values.astype(float), self._row_len).mean(axis, **kwargs)
         s = self.sum(axis=-1)
         l = self._row_len
         if self._row_len is None:
